@@ -7,6 +7,7 @@ import (
 	"math/big"
 	"math/rand"
 	"strings"
+	"sync"
 	"time"
 
 	"perun.network/go-perun/channel"
@@ -228,6 +229,69 @@ func propose(P *party.Party, prop client.ChannelProposal) (*client.Channel, erro
 	return P.Client.ProposeChannel(ctx, prop)
 }
 
+// stalled is a failed opening between honest clients in which nothing moved for a long time
+// before the request gave up: every message had been delivered, no ledger call was in flight,
+// the proposal had been accepted - the protocol is stuck, not slow.
+type stallWatch struct {
+	w        *party.World
+	stop     chan struct{}
+	done     chan struct{}
+	mu       sync.Mutex
+	lastMove time.Time
+	start    time.Time
+}
+
+func watchStall(w *party.World) *stallWatch {
+	sw := &stallWatch{w: w, stop: make(chan struct{}), done: make(chan struct{}), lastMove: time.Now(), start: time.Now()}
+	go func() {
+		defer close(sw.done)
+		last := int64(-1)
+		for {
+			cur := w.Bus.Delivered()*1000003 + int64(len(w.Ledger.Calls()))
+			if cur != last || !w.Bus.Drained() || !w.Ledger.Idle() {
+				last = cur
+				sw.mu.Lock()
+				sw.lastMove = time.Now()
+				sw.mu.Unlock()
+			}
+			select {
+			case <-sw.stop:
+				return
+			case <-time.After(50 * time.Millisecond):
+			}
+		}
+	}()
+	return sw
+}
+
+// quietFor stops the watch and tells for how long nothing had moved and how long it watched.
+func (sw *stallWatch) quietFor() (quiet, total time.Duration) {
+	close(sw.stop)
+	<-sw.done
+	sw.mu.Lock()
+	defer sw.mu.Unlock()
+	return time.Since(sw.lastMove), time.Since(sw.start)
+}
+
+// openingFailed classifies a failed honest opening: stalled (violation) or inconclusive.
+func openingFailed(s sink.Sink, sw *stallWatch, kind, what string, prop client.ChannelProposal, responder *party.Party, err error) {
+	quiet, total := sw.quietFor()
+	accepted := false
+	for _, p := range responder.Proposals() {
+		if p.Base().ProposalID == prop.Base().ProposalID {
+			accepted = true
+		}
+	}
+	// no message was delivered and no ledger call made during the last two thirds of the wait
+	if accepted && total > 10*time.Second && quiet > total*2/3 {
+		s.Violation("C08/opening-stalled/"+kind, fmt.Sprintf("%s: the proposal was accepted but the opening never completed: every message had been delivered and nothing moved for %v before the request gave up (%v)", what, quiet.Round(time.Second), err),
+			openWitness{Kind: kind, Proposal: trunc(canon.String(prop)), Problems: []string{err.Error()}})
+		s.Case(fmt.Sprintf("positive|%s|%s", kind, canon.Shape(prop)), true)
+		return
+	}
+	s.Inconclusive(what + " failed: " + err.Error())
+}
+
 func positive(s sink.Sink, em *childrun.Emitter, rng *rand.Rand, sample bool) {
 	kind := []string{"ledger", "ledger", "sub", "virtual", "nonce-differential"}[rng.Intn(5)]
 	em.Progress("positive " + kind)
@@ -248,11 +312,13 @@ func positive(s sink.Sink, em *childrun.Emitter, rng *rand.Rand, sample bool) {
 	switch kind {
 	case "ledger":
 		prop := ledgerProposal(rng, w, A, B, false)
+		sw := watchStall(w)
 		ch, err := propose(A, prop)
 		if err != nil {
-			s.Inconclusive("ledger opening failed: " + err.Error())
+			openingFailed(s, sw, kind, "ledger opening", prop, B, err)
 			return
 		}
+		sw.quietFor()
 		chB := B.AwaitChannel(ch.ID())
 		if chB == nil {
 			report(prop, []string{"the responder never obtained the channel the proposer obtained"})
@@ -321,11 +387,13 @@ func positive(s sink.Sink, em *childrun.Emitter, rng *rand.Rand, sample bool) {
 		if err != nil {
 			panic(err)
 		}
+		sw := watchStall(w)
 		ch, err := propose(A, prop)
 		if err != nil {
-			s.Inconclusive("sub-channel opening failed: " + err.Error())
+			openingFailed(s, sw, kind, "sub-channel opening", prop, B, err)
 			return
 		}
+		sw.quietFor()
 		chB := B.AwaitChannel(ch.ID())
 		if chB == nil {
 			report(prop, []string{"the responder never obtained the sub-channel"})
@@ -364,11 +432,13 @@ func positive(s sink.Sink, em *childrun.Emitter, rng *rand.Rand, sample bool) {
 		if err != nil {
 			panic(err)
 		}
+		sw := watchStall(w)
 		ch, err := propose(A, prop)
 		if err != nil {
-			s.Inconclusive("virtual channel opening failed: " + err.Error())
+			openingFailed(s, sw, kind, "virtual channel opening", prop, B, err)
 			return
 		}
+		sw.quietFor()
 		chQ := B.AwaitChannelNoWatch(ch.ID())
 		if chQ == nil {
 			report(prop, []string{"the responder never obtained the virtual channel"})
@@ -510,6 +580,30 @@ var mutators = []mutator{
 		i := rng.Intn(len(fa))
 		fa[i][0] = new(big.Int).Add(fa[i][0], big.NewInt(1))
 		b.FundingAgreement = fa
+		return true
+	}},
+	{"funding-agreement-redistributed-same-sums", "virtual", func(rng *rand.Rand, a *arena, p client.ChannelProposal) bool {
+		// per-asset sums are kept: only who funds how much differs from the initial balances
+		b := p.Base()
+		fa := b.InitBals.Balances.Clone()
+		for i := range fa {
+			for j := 0; j < 2; j++ {
+				if fa[i][j].Sign() > 0 {
+					fa[i][j] = new(big.Int).Sub(fa[i][j], big.NewInt(1))
+					fa[i][1-j] = new(big.Int).Add(fa[i][1-j], big.NewInt(1))
+					b.FundingAgreement = fa
+					return true
+				}
+			}
+		}
+		return false
+	}},
+	{"funding-agreement-row-missing", "virtual", func(rng *rand.Rand, a *arena, p client.ChannelProposal) bool {
+		b := p.Base()
+		if len(b.InitBals.Balances) < 2 {
+			return false
+		}
+		b.FundingAgreement = b.InitBals.Balances.Clone()[:len(b.InitBals.Balances)-1]
 		return true
 	}},
 	{"no-parents", "virtual", func(rng *rand.Rand, a *arena, p client.ChannelProposal) bool {
